@@ -30,13 +30,15 @@ EVENTS = (["next-timer", "+100ms", "user-send"]
           + [f"notify({k},{o:+d})" for k in ("genuine", "forged") for o in OFFSETS]
           + ["sync-reply", "sync-reply-twice", "sync-reply-wrong-tag", "sync-reply-forged"]
           + [f"wrapped-indication({k},{o:+d})" for k in ("genuine", "forged", "wrong-key") for o in OFFSETS]
-          + ["plain-frames-of-every-service", "wrapped-unparsable-inner-frames"])
+          + ["plain-frames-of-every-service", "wrapped-unparsable-inner-frames", "disconnect+connect"])
 # services a secure multicast node still has to accept unencrypted (03.08.09: discovery and self description)
 PLAIN_ALLOWED = {0x0201, 0x0202, 0x0203, 0x0204, 0x020B, 0x020C}
 CEMI = bytes.fromhex("2900bcd011010901010081")
 
 
-def make(steps: int, uniform_max: bool):
+def make(steps: int, uniform_max: bool, family: str = ""):
+    """family 'ahead': the session starts (for free) with an authentic answer to our synchronisation request that puts the group
+    timer one hour ahead of the local clock, and one user send - the deviation budget then goes into what follows (restart, ...)."""
     def scenario(ch: Chooser) -> list[tuple[str, str]]:
         viols: list[tuple[str, str]] = []
         saved_random = ip_secure_mod.random
@@ -128,6 +130,18 @@ def make(steps: int, uniform_max: bool):
                             raw = raw[:-1] + bytes((raw[-1] ^ 1,))
                         timely = timer > local_timer() - LATENCY_MS
                         feed(raw, ev, kind == "genuine", kind == "genuine" and timely and st.timer_authenticated)
+                    elif ev == "disconnect+connect":
+                        # the same SecureRouting object is stopped and started again (XKNX.stop() / start()): the group timer
+                        # it sends with must not fall back behind values it has already used
+                        async def restart() -> None:
+                            try:
+                                await r.disconnect()
+                                await r.connect()
+                            except Exception:  # noqa: BLE001
+                                pass
+
+                        w.spawn(restart(), name="harness-restart")
+                        loop.settle()
                     elif ev == "wrapped-unparsable-inner-frames":
                         # authentic, timely wrappers whose content the library cannot parse: they must be dropped, not raise
                         inners = [
@@ -149,6 +163,12 @@ def make(steps: int, uniform_max: bool):
                                 continue
                             feed(plain, f"plain({service:#06x})", False, service in PLAIN_ALLOWED)
 
+                if family == "ahead":
+                    loop.settle()
+                    tag = sync_tag() or b"\x00\x01"
+                    events.append((round(loop.time(), 3), "sync-reply(+1h)"))
+                    feed(ipsec.timer_notify_frame(KEY, local_timer() + 3_600_000, XKNX_SERIAL_NUMBER, tag), "sync-reply(+1h)", True, False)
+                    do("user-send")
                 for _ in range(steps):
                     loop.settle()
                     c = ch.choose("env", len(EVENTS))
@@ -156,7 +176,9 @@ def make(steps: int, uniform_max: bool):
                 loop.run_until(loop.time() + 30)
                 # outgoing timer values never decrease
                 timers = []
-                for t, data, _addr in tr.sent:
+                # (a disconnect()+connect() opens a new endpoint: everything the object ever sent counts)
+                all_sent = sorted((x for e in loop.datagram_endpoints if e.kind == "udp" for x in e.sent), key=lambda x: x[0])
+                for t, data, _addr in all_sent:
                     body = KNXIPFrame.from_knx(data)[0].body
                     if isinstance(body, SecureWrapper):
                         timers.append((t, "wrapper", int.from_bytes(body.sequence_information, "big")))
@@ -173,11 +195,11 @@ def make(steps: int, uniform_max: bool):
                         viols.append(("outgoing-timer-decreases", f"{a} then {b}; events={events}"))
                         break
                 for name, exc in loop.task_failures():
-                    if not name.startswith("harness-send"):
+                    if not name.startswith(("harness-send", "harness-restart")):
                         viols.append((f"task-exception:{type(exc).__name__}", f"{name}: {exc!r}; events={events}"))
                 for cx in loop.exceptions:
                     viols.append((f"loop-exception:{type(cx.get('exception')).__name__}", repr(cx)[:300] + f"; events={events}"))
-                ch.notes.append(f"auth={st.timer_authenticated},keeper={st.timekeeper},fwd={len(delivered)},sent={len(tr.sent)}")
+                ch.notes.append(f"auth={st.timer_authenticated},keeper={st.timekeeper},fwd={len(delivered)},sent={len(all_sent)}")
                 ch.state((st.timer_authenticated, st.timekeeper, st.sched_update, len(delivered)))
         finally:
             ip_secure_mod.random = saved_random
@@ -202,13 +224,14 @@ def run(ctx: Ctx) -> None:
     ctx.rule = (
         f"real SecureRouting/SecureGroup/SecureSequenceTimer from connect() on (timer synchronisation running), in-memory multicast, random.uniform owned by the harness (min and max), "
         f"{steps} environment steps; every schedule with <= {bound} events other than 'next timer' from: +100 ms, user send, TimerNotify genuine/forged at local timer {OFFSETS} ms, "
-        "the reply to our synchronisation tag (once, twice, wrong tag, forged), wrapped RoutingIndication genuine / with a flipped MAC bit / wrapped with another key (decrypts to noise) at the same offsets, one plain frame of every service, authentic wrappers around unparsable content type. "
-        "Frames are built by the independent reference. Oracle: nothing raises; only authentic frames move the timer and never backwards; wrapped frames are forwarded iff authentic, timely "
+        "the reply to our synchronisation tag (once, twice, wrong tag, forged), wrapped RoutingIndication genuine / with a flipped MAC bit / wrapped with another key (decrypts to noise) at the same offsets, one plain frame of every service, authentic wrappers around unparsable content type, disconnect()+connect() on the same object. "
+        "A second family starts (for free) with an authentic synchronisation answer one hour ahead and a user send. Frames are built by the independent reference. Oracle: nothing raises; only authentic frames move the timer and never backwards; wrapped frames are forwarded iff authentic, timely "
         "(> local - 1000 ms) and after synchronisation; plain frames only for discovery/description; everything sent is an authentic wrapper or TimerNotify with non-decreasing timer"
     )
     ctx.bounds = {"deviation_bound": bound, "steps": steps, "events": len(EVENTS)}
     for umax in (False, True):
         explore(ctx, __name__, "secure-routing", (steps, umax), bound=bound)
+    explore(ctx, __name__, "secure-routing", (4, False, "ahead"), bound=min(bound, 2))
     finalize_states(ctx)
 
 
